@@ -10,4 +10,10 @@ def unprotectedSitesAfterTiling : Nat := 0
 /-- the restore slices the tiled path (`obj._position[:m0]`) instead of putting the saved arrays back -/
 def restoreBySlicing : Bool := false
 
+/-- (audit2) the restore is ONE loop `for v, (p, o) in zip(A, B): v._position = p; v._orientation = o` and `B` is stored
+exactly once, by a top-level statement BEFORE the first tiling statement, as `[(x._position, x._orientation) for x in A]`,
+and read nowhere else: the arrays put back are the ones the objects held before the tiling.  `false` for a save taken
+after the tiling (which leaves the other three facts as they are) or for any restore of another shape -/
+def savedBeforeTiling : Bool := true
+
 end MagpyVerif.Gen.Exits
